@@ -146,7 +146,7 @@ def lay0(ctx, c):
             repo.loc(fn, exits[0] if exits else lp))
     appends = [n for n in ast.walk(lp) if isinstance(n, ast.Call) and isinstance(n.func, ast.Attribute) and n.func.attr == "append"]
     conds = [U(n.test) for n in ast.walk(lp) if isinstance(n, ast.If)]
-    good = len(appends) == 1 and all(re.fullmatch(r"not \w+\.is_empty and (not )?\w+\.is_comment_only|not \w+\.is_empty and not \w+\.is_comment_only", t) for t in conds)
+    good = len(appends) == 1 and all(re.fullmatch(r"not \w+\.is_empty and \(?not \w+\.is_comment_only\)?", t) for t in conds)
     if good:
         c.ok("Program.parse:filter", "keeps every statement that is neither empty nor a comment", repo.loc(fn, lp))
     else:
